@@ -85,6 +85,11 @@ func (c *Commit) ReadFrom(r io.Reader) (int64, error) {
 	} {
 		n, err := objline.ReadField(parser, l.label, l.f)
 		if err != nil {
+			// these fields are mandatory: input that ends here is a truncated
+			// commit, not a clean end of input
+			if errors.Is(err, io.EOF) {
+				err = io.ErrUnexpectedEOF
+			}
 			return 0, err
 		}
 		total += int64(n)
